@@ -119,12 +119,12 @@ fn instant_lines(ctx: &Ctx, tag: &str, years: Vec<i64>, salt: u64) -> usize {
 }
 
 pub fn run(ctx: &Ctx) -> usize {
-  let wins = day_windows(ctx, 601, 40, 200, 1);
+  let wins = day_windows(ctx, 601, 150, 200, 1);
   let a = walk_days(ctx, "Trace_C06", wins, day_line);
   let yranges: Vec<(i64, i64)> = if ctx.quick() {
     let mut v = vec![(1, 6), (640, 643), (1580, 1584), (1644, 1646), (1959, 1962), (2022, 2025), (7270, 7280), (8714, 8718), (9995, 9999)];
     let mut rng = ctx.rng(602);
-    for _ in 0..50 {
+    for _ in 0..400 {
       let a = rng.range(2, 9995);
       v.push((a, a + 2));
     }
@@ -141,7 +141,7 @@ pub fn run(ctx: &Ctx) -> usize {
   let iyears: Vec<i64> = if ctx.quick() {
     let mut v: Vec<i64> = vec![1, 2, 641, 1582, 1583, 1960, 2023, 2024, 7275, 7276, 8716, 9998, 9999];
     let mut rng = ctx.rng(603);
-    for _ in 0..60 {
+    for _ in 0..400 {
       v.push(rng.range(2, 9998));
     }
     v
